@@ -24,6 +24,15 @@ CHECKS = {
           'M_PI/2 read as pi/2. Outside: meshes > 6 nodes, rotation covariance of the bending hinge, values of the bending/regularisation energy gradients.'),
     technique='symbolic execution of LLVM IR + algebraic normalisation + z3 nonlinear real arithmetic; native replay of solver models',
     design='3/C02'),
+ 'C03': dict(
+    level='other',
+    text=('Bounded symbolic proof of the integration law: update_nodes_positions runs in irsym on three-cell populations (epithelial/ECM/static/lumen/nucleus) with every position, momentum, force, '
+          'dt, damping, density, volume symbolic, over one and two consecutive steps; z3 proves, per node and component, the semi-implicit / overdamped law with mass = density*volume/#live nodes, '
+          'force reset, time = k*dt, static cells and unused slots untouched, and the coupled-pair law (equal displacement, averaged mass, total momentum/force). Quick: configurations (contact 1, dynamic 0/1); '
+          'thorough: all six (contact 0/1/2 x dynamic 0/1).'),
+    note='Trusted: clang lowering (validated per run in each configuration), irsym, polynomial normaliser, z3. Assumptions: positive dt/damping/density/volume; couplings mutual and between non-static cells. Bounds: 3 cells x 4 nodes, <= 2 steps, 5 coupling patterns.',
+    technique='symbolic execution of LLVM IR (per compile-time configuration) + z3 on normalised rational-function identities; native replay',
+    design='3/C03'),
  'C12': dict(
     level='other',
     text=('Bounded symbolic proof: the real cell constructor, initialize_cell_properties, compute_volume/area/centroid, get_aabb, update_face_normal_and_area and '
